@@ -1,0 +1,24 @@
+//! Verification hook (cargo feature `verif`): entry counts of every map of this index.
+//! The exhaustive destructuring makes a new field break this build until it is accounted for.
+use super::DiagnosticIndex;
+
+impl DiagnosticIndex {
+    pub fn verif_report(&self) -> Vec<(&'static str, usize)> {
+        let Self {
+            diagnostic_actions,
+            diagnostics,
+            file_diagnostic_disabled,
+            file_diagnostic_enabled,
+        } = self;
+        vec![
+            ("diagnostic.diagnostic_actions", diagnostic_actions.len()),
+            ("diagnostic.diagnostic_actions.items", diagnostic_actions.values().map(|v| v.len()).sum()),
+            ("diagnostic.diagnostics", diagnostics.len()),
+            ("diagnostic.diagnostics.items", diagnostics.values().map(|v| v.len()).sum()),
+            ("diagnostic.file_diagnostic_disabled", file_diagnostic_disabled.len()),
+            ("diagnostic.file_diagnostic_disabled.items", file_diagnostic_disabled.values().map(|v| v.len()).sum()),
+            ("diagnostic.file_diagnostic_enabled", file_diagnostic_enabled.len()),
+            ("diagnostic.file_diagnostic_enabled.items", file_diagnostic_enabled.values().map(|v| v.len()).sum()),
+        ]
+    }
+}
